@@ -1,4 +1,5 @@
 import SeaQ.Props.C10
+import SeaQ.Props.C10Stmt
 #print axioms SeaQ.Props.C10.values_ok_iff
 #print axioms SeaQ.Props.C10.values_err
 #print axioms SeaQ.Props.C10.values_ok_appends
@@ -11,3 +12,6 @@ import SeaQ.Props.C10
 #print axioms SeaQ.Props.C10.rows_are_accepted
 #print axioms SeaQ.Props.C10.default_only_when_bare
 #print axioms SeaQ.Props.C10.rect_counterexample
+#print axioms SeaQ.Props.C10Stmt.rInsert_branch
+#print axioms SeaQ.Props.C10Stmt.rect_statement
+#print axioms SeaQ.Props.C10Stmt.rRows_shape
